@@ -192,6 +192,67 @@ Not applicable: that the position lies in the first malformed assignment (nom's 
         }
         ctx.floor("C17.book/slice-evaluations", n_eval, 100);
     }
+    // the excerpt printed by contextualize() starts at the context start: contextualize numbers the excerpt's lines
+    // from context_start_line, so the excerpt helper must return a prefix of the text it is given
+    if let Some(f) = m.fns.iter().find(|f| f.name == "until_next_unindented" && f.module.starts_with("lexer")) {
+        use crate::eval::{Env, Evaluator, Val};
+        ctx.func(&f.key);
+        let consts = const_resolver(m);
+        let hook = |_: &Evaluator, name: &str, a: &[Val]| -> Option<Result<Val, String>> {
+            match (name, a.first()) {
+                (".unwrap_or_default", Some(Val::Ctor(n, _, _))) if n == "None" => Some(Ok(Val::Str(String::new()))),
+                _ => None,
+            }
+        };
+        let ev = Evaluator { consts: &consts, call_hook: &hook, inline: None };
+        let params: Vec<String> = f.sig.inputs.iter().filter_map(|a| match a { syn::FnArg::Typed(t) => Some(tok(&t.pat)), _ => None }).collect();
+        let long: String = (0..40).map(|i| format!("T{} ::= INTEGER (0..{})
+", i, i)).collect::<String>() + "Bad ::= SEQUENCE {
+  a INTEGER DEFAULT
+}
+Next ::= BOOLEAN
+";
+        let texts: Vec<(String, usize)> = vec![
+            ("A ::= INTEGER
+B ::= §
+C ::= BOOLEAN
+".to_string(), 20),
+            ("A ::= SEQUENCE {
+  a §
+}
+B ::= BOOLEAN".to_string(), 22),
+            (long.clone(), long.find("DEFAULT").unwrap() + 8),
+            ("short".to_string(), 5),
+            ("é §".to_string(), 3),
+            (String::new(), 1),
+        ];
+        let mut n = 0;
+        for (text, at) in &texts {
+            for fallback in [10usize, 300] {
+                n += 1;
+                ctx.oblige("C17.same", &format!("excerpt-is-prefix:{}:{}", text.len(), fallback), true);
+                let mut env = Env::new();
+                env.insert(params.first().cloned().unwrap_or("input".into()), Val::Str(text.clone()));
+                env.insert(params.get(1).cloned().unwrap_or("at_least_until".into()), Val::int(*at as i128));
+                env.insert(params.get(2).cloned().unwrap_or("fallback_len".into()), Val::int(fallback as i128));
+                match ev.eval_fn_body(&f.block, &mut env) {
+                    Ok(Val::Str(r)) => {
+                        // `trim()` may strip leading blanks of the fallback; a prefix up to leading whitespace
+                        if !text.trim_start().starts_with(r.trim_start()) {
+                            ctx.violate("C17.same", "contextualize-excerpt-start", &f.file, f.line,
+                                &format!("until_next_unindented returns an excerpt that does not start at the start of the text it is given (text of {} bytes, error {} bytes in: excerpt starts with {:?}): contextualize() numbers the excerpt's lines from context_start_line, so every label — and the FAILED AT THIS LINE marker — is off by the number of dropped lines", text.len(), at, r.chars().take(30).collect::<String>()));
+                            break;
+                        }
+                    }
+                    Ok(o) => { ctx.fail_closed("C17.same", &format!("[until_next_unindented]: {}", o.show().chars().take(100).collect::<String>())); break }
+                    Err(e) => { ctx.fail_closed("C17.same", &format!("[until_next_unindented {} bytes at {}]: {}", text.len(), at, e)); break }
+                }
+            }
+        }
+        ctx.floor("C17.same/excerpt-evaluations", n, 10);
+    } else {
+        ctx.fail_closed("C17.same", "anchor not found: lexer::util::until_next_unindented");
+    }
     // who may write the position fields: struct literals `Input { .. }` and assignments to .line/.offset/.column
     let mut writers = vec![];
     for f in m.fns.iter().filter(|f| f.krate == "rasn-compiler") {
